@@ -1,6 +1,6 @@
 #!/venv/bin/python
 """Worker of C12: runs in its own interpreter (own PYTHONHASHSEED).  Reads a JSON job from stdin:
-  {"specs": [[path, text], ...], "history": "fresh"|"after-unrelated"|"twice", "outdir": dir, "whitelist": null|{...}, "unrelated": [[path, text], ...]}
+  {"specs": [[path, text], ...], "history": "fresh"|"after-unrelated"|"after-namesake"|"after-other-options"|"isolated"|"twice", "outdir": dir, "whitelist": null|{...}, "unrelated": [[path, text], ...]}
 and prints {"runs": [{backend: {relpath: sha1} | "crash ..."}]}.  No state is shared with the parent."""
 import hashlib
 import json
@@ -49,6 +49,24 @@ def generate(specs, whitelist, root, sub, args_override=None):
     return digest(o), texts(o)
 
 
+def namesake(specs):
+    """The same spec under other namespace names: every type, alias and route name recurs in a namespace that the spec under
+    observation does not have (a cache keyed by a bare name would be primed with the wrong owner)."""
+    import re
+    names = set()
+    for _, t in specs:
+        names.update(re.findall(r'(?m)^namespace[ \t]+(\w+)', t))
+    names.discard('stone_cfg')
+    out = []
+    for p, t in specs:
+        for n in sorted(names, key=len, reverse=True):
+            t = re.sub(r'(?m)^(namespace|import)([ \t]+)%s\b' % re.escape(n), r'\1\2%sq' % n, t)
+            t = re.sub(r'(?<![\w.`"])%s\.(?=[A-Za-z_])' % re.escape(n), '%sq.' % n, t)
+            t = re.sub(r'`%s\.(?=[A-Za-z_])' % re.escape(n), '`%sq.' % n, t)
+        out.append((p, t))
+    return out
+
+
 def main():
     job = json.load(sys.stdin)
     root = job['outdir']
@@ -59,6 +77,11 @@ def main():
     keep_text = job.get('keep_text')
     if job['history'] == 'after-unrelated':
         generate(job['unrelated'], None, root, 'u')
+    if job['history'] == 'after-namesake':
+        pre, _ = generate(namesake(job['specs']), None, root, 'n', job.get('args'))
+        if 'compile' in pre:
+            print(json.dumps({'error': 'namesake spec does not compile: %s' % pre['compile']}))
+            return
     if job['history'] == 'after-other-options':
         generate(job['specs'], job.get('whitelist'), root, 'o', job.get('pre_args'))
     ISOLATED[0] = job['history'] == 'isolated'
